@@ -487,4 +487,363 @@ theorem fixValidUnits_mem {g : Reg} {qunits : List Sym} : ∀ {vs r : List Sym},
     · cases h
 
 
+/-! ### produced quantities are the quantities of the direct constructor -/
+
+/-- a quantity that is exactly what `Quantity(category, unit)` gives for its own category name and unit
+(a derived one carries nothing) -/
+def Canon (g : Reg) (q : Quant) : Prop :=
+  ∀ c u r, q = .simple c u r → mkQuant g c.name u = .ok (.simple c u r)
+
+theorem canon_derived (g : Reg) : Canon g .derived := by
+  intro c u r h; cases h
+
+theorem settleUnit_idem {g : Reg} {c u u' : Sym} (h : settleUnit g c u = some u') :
+    settleUnit g c u' = some u' := by
+  unfold settleUnit at h
+  split at h
+  · cases h; rename_i hv; unfold settleUnit; rw [if_pos hv]
+  · split at h
+    · cases h
+      rename_i hv
+      have hv2 := (Bool.and_eq_true _ _).mp hv
+      unfold settleUnit; rw [if_pos hv2.2]
+    · cases h
+
+theorem mkQuant_canon {g : Reg} {cn u : Sym} {q : Quant} (h : mkQuant g cn u = .ok q) : Canon g q := by
+  intro c u' r hq
+  subst hq
+  unfold mkQuant at h
+  cases hc : g.cat? cn with
+  | none => rw [hc] at h; cases h
+  | some ci =>
+    rw [hc] at h
+    simp only at h
+    cases hs : settleUnit g cn u with
+    | none => rw [hs] at h; cases h
+    | some u1 =>
+      rw [hs] at h
+      simp only at h
+      cases hi : g.db.getInfo ci.qtype u1 true with
+      | error e => rw [hi] at h; cases h
+      | ok r1 =>
+        rw [hi] at h
+        cases h
+        have hn : c.name = cn := by
+          have := List.find?_some hc
+          simpa using this
+        unfold mkQuant
+        rw [hn, hc]
+        simp only
+        rw [settleUnit_idem hs]
+        simp only
+        rw [hi]
+
+theorem mkQuantNoCat_canon {g : Reg} {u : Sym} {q : Quant} (h : mkQuantNoCat g u = .ok q) : Canon g q := by
+  unfold mkQuantNoCat at h
+  split at h
+  · cases h
+  · exact mkQuant_canon h
+  · split at h
+    · split at h
+      · cases h
+      · exact mkQuant_canon h
+      · cases h
+    · cases h
+
+theorem obtainComposing_canon {g : Reg} {es : List Entry} {q : Quant} (h : obtainComposing g es = .ok q) :
+    Canon g q := by
+  unfold obtainComposing at h
+  split at h
+  · cases h
+  · cases h; exact canon_derived g
+
+theorem obtainMapping_canon {g : Reg} {es : List Entry} {q : Quant} (h : obtainMapping g es = .ok q) :
+    Canon g q := by
+  unfold obtainMapping at h
+  split at h
+  · split at h
+    · exact mkQuant_canon h
+    · exact obtainComposing_canon h
+  · exact obtainComposing_canon h
+
+theorem createDerived_canon {g : Reg} {es : List Entry} {q : Quant} (h : createDerived g es = .ok q) :
+    Canon g q := by
+  unfold createDerived at h
+  split at h
+  · cases h
+  · exact obtainMapping_canon h
+
+theorem obtainList_canon {g : Reg} {units : List (Sym × Int)} {cat : CatArg} {q : Quant}
+    (h : obtainList g units cat = .ok q) : Canon g q := by
+  unfold obtainList at h
+  simp only at h
+  have comp : ∀ {q}, (match cat with
+      | .many cs => obtainMapping g (zipEntries cs units)
+      | _ => (.error .assertion : Except ErrKind Quant)) = .ok q → Canon g q := by
+    intro q hq
+    split at hq
+    · exact obtainMapping_canon hq
+    · cases hq
+  split at h
+  · split at h
+    · split at h
+      · exact mkQuantNoCat_canon h
+      · exact mkQuant_canon h
+      · cases h
+      · exact mkQuant_canon h
+    · exact comp h
+  · exact comp h
+
+theorem opNumberQuant_canon {g : Reg} {q q' : Quant} {op : BinOp} {nl : Bool}
+    (h : opNumberQuant g q op nl = .ok q') : Canon g q' := by
+  unfold opNumberQuant at h
+  split at h
+  · cases h
+  · split at h
+    · exact obtainMapping_canon h
+    · exact obtainMapping_canon h
+    · exact createDerived_canon h
+    · exact createDerived_canon h
+
+theorem opNumber_canon {g : Reg} {q q' : Quant} {s s' : Shape} {op : BinOp} {x : Val} {nl : Bool}
+    (hq : Canon g q) (h : opNumber g q s op x nl = .ok (q', s')) : Canon g q' := by
+  unfold opNumber at h
+  split at h
+  · cases h
+  · cases h
+  · cases h1 : opNumberQuant g q op nl with
+    | error e => rw [h1] at h; cases h
+    | ok q1 =>
+      rw [h1] at h
+      simp only at h
+      split at h
+      · cases h
+      · cases h; exact opNumberQuant_canon h1
+  · split at h
+    · cases h1 : opNumberQuant g q .div true with
+      | error e => rw [h1] at h; cases h
+      | ok q1 =>
+        rw [h1] at h
+        simp only at h
+        split at h
+        · cases h
+        · cases h; exact opNumberQuant_canon h1
+    · split at h
+      · cases h
+      · cases h; exact hq
+
+theorem reobtainPair_canon {g : Reg} {e1 e2 : Entry} {q : Quant} (h : reobtainPair g e1 e2 = .ok q) :
+    Canon g q := by
+  unfold reobtainPair at h
+  split at h
+  · cases h
+  · split at h
+    · cases h
+    · cases h; exact obtainMapping_canon (by assumption)
+
+theorem sameQuantityOp_canon {g : Reg} {q1 q2 q : Quant} {conv : Option (UnitRow × UnitRow)}
+    (hq : Canon g q1) (h : sameQuantityOp g q1 q2 = .ok (q, conv)) : Canon g q := by
+  unfold sameQuantityOp at h
+  split at h
+  · split at h
+    · cases h; exact hq
+    · split at h
+      · split at h
+        · split at h
+          · cases h
+          · split at h
+            · cases h
+            · cases h; exact reobtainPair_canon (by assumption)
+        · split at h
+          · cases h
+          · split at h
+            · cases h; exact reobtainPair_canon (by assumption)
+            · cases h
+      · cases h
+  · cases h
+
+theorem opObjects_canon {g : Reg} {q1 q2 q : Quant} {s1 s2 s : Shape} {op : BinOp}
+    (hq : Canon g q1) (h : opObjects g q1 s1 q2 s2 op = .ok (q, s)) : Canon g q := by
+  unfold opObjects at h
+  split at h
+  · cases h
+  · split at h
+    · cases h1 : sameQuantityOp g q1 q2 with
+      | error e => rw [h1] at h; cases h
+      | ok r =>
+        obtain ⟨q', conv⟩ := r
+        rw [h1] at h
+        simp only at h
+        split at h
+        · cases h; exact sameQuantityOp_canon hq h1
+        · cases h
+        · cases h
+    · split at h
+      · cases h
+      · cases h1 : sameQuantityOp g q1 q2 with
+        | error e => rw [h1] at h; cases h
+        | ok r =>
+          obtain ⟨q', conv⟩ := r
+          rw [h1] at h
+          simp only at h
+          split at h
+          · cases h
+          · cases h; exact sameQuantityOp_canon hq h1
+    · cases h
+
+theorem pickled_canon {g : Reg} {q q' : Quant} {s s' : Shape} (h : pickled g q s = .ok (q', s')) :
+    Canon g q' := by
+  unfold pickled at h
+  split at h
+  · cases h
+  · split at h
+    · cases h
+    · cases h; rename_i h1; exact obtainMapping_canon h1
+
+theorem createCopy_canon {g : Reg} {q q' : Quant} {a : ArrVal} {k : Cache} {unit cat : Option Sym} {o : Obj}
+    (hq : Canon g q) (h : createCopy g q a k unit cat = .ok (q', o)) : Canon g q' := by
+  unfold createCopy at h
+  split at h
+  · cases h
+  · split at h
+    · cases h
+    · split at h
+      · cases h; exact hq
+      · cases h
+      · split at h
+        · cases h
+        · cases h; rename_i h1; exact mkQuant_canon h1
+      · split at h
+        · cases h
+        · split at h
+          · cases h
+          · cases h; rename_i h1; exact mkQuant_canon h1
+
+theorem createCopyScalar_canon {g : Reg} {q q' : Quant} {v v' : Val} {unit cat : Option Sym}
+    (hq : Canon g q) (h : createCopyScalar g q v unit cat = .ok (q', v')) : Canon g q' := by
+  unfold createCopyScalar at h
+  split at h
+  · cases h
+  · simp only at h
+    split at h
+    · cases h
+    · split at h
+      · cases h; exact hq
+      · cases h
+      · split at h
+        · cases h
+        · cases h; exact mkQuant_canon (by assumption)
+      · split at h
+        · cases h
+        · split at h
+          · cases h
+          · cases h; exact mkQuant_canon (by assumption)
+
+/-- **every production path ends in a quantity of the direct constructor** -/
+theorem build_canon {g : Reg} : ∀ {p : Prov} {q : Quant} {s : Shape}, build g p = .ok (q, s) → Canon g q := by
+  intro p
+  induction p with
+  | direct c u s0 =>
+    intro q s h
+    unfold build at h
+    split at h
+    · cases h
+    · cases h; rename_i h1; exact mkQuant_canon h1
+  | viaMapping es s0 =>
+    intro q s h
+    unfold build at h
+    split at h
+    · cases h
+    · cases h; rename_i h1; exact obtainMapping_canon h1
+  | viaList units cat s0 =>
+    intro q s h
+    unfold build at h
+    split at h
+    · cases h
+    · cases h; rename_i h1; exact obtainList_canon h1
+  | opNumber p op x nl ih =>
+    intro q s h
+    unfold build at h
+    split at h
+    · cases h
+    · rename_i h1; exact opNumber_canon (ih h1) h
+  | opObjects p1 p2 op ih1 ih2 =>
+    intro q s h
+    unfold build at h
+    split at h
+    · cases h
+    · rename_i h1
+      split at h
+      · cases h
+      · exact opObjects_canon (ih1 h1) h
+  | pickle p ih =>
+    intro q s h
+    unfold build at h
+    split at h
+    · cases h
+    · exact pickled_canon h
+  | copy p unit cat ih =>
+    intro q s h
+    unfold build at h
+    split at h
+    · cases h
+    · rename_i h1
+      split at h
+      · cases h; rename_i h2; exact createCopy_canon (ih h1) h2
+      · cases h
+      · cases h
+    · rename_i h1
+      split at h
+      · cases h; rename_i h2; exact createCopyScalar_canon (ih h1) h2
+      · cases h
+    · cases h
+  | validated p cs ih =>
+    intro q s h
+    unfold build at h
+    exact ih h
+
+
+/-! ### what `AddCategory` stores of the flags and the caption -/
+
+theorem addCategoryCore_flags {g : Reg} {a : AddArgs} {info : CatInfo} (h : addCategoryCore g a = .ok info) :
+    info.minExcl = a.minExcl ∧ info.maxExcl = a.maxExcl ∧ info.caption = a.caption := by
+  unfold addCategoryCore at h
+  split at h
+  · cases h
+  · split at h
+    · cases h
+    · split at h
+      · cases h
+      · split at h
+        · cases h
+        · cases h; exact ⟨rfl, rfl, rfl⟩
+
+theorem mergeArgs_flags {g : Reg} {a a' : AddArgs} (h : mergeArgs g a = .ok a') :
+    a'.minExcl = a.minExcl ∧ a'.maxExcl = a.maxExcl ∧ a'.caption = a.caption := by
+  unfold mergeArgs at h
+  split at h
+  · split at h
+    · cases h
+    · cases h; exact ⟨rfl, rfl, rfl⟩
+  · cases h; exact ⟨rfl, rfl, rfl⟩
+
+theorem addCategory_flags {g g' : Reg} {a : AddArgs} {info : CatInfo} (h : addCategory g a = .ok (g', info)) :
+    info.minExcl = a.minExcl ∧ info.maxExcl = a.maxExcl ∧ info.caption = a.caption := by
+  unfold addCategory at h
+  split at h
+  · cases h
+  · split at h
+    · cases h
+    · split at h
+      · cases h
+      · split at h
+        · cases h
+        · split at h
+          · cases h
+          · cases h
+            rename_i h1 _ h2
+            obtain ⟨a1, a2, a3⟩ := addCategoryCore_flags h2
+            obtain ⟨b1, b2, b3⟩ := mergeArgs_flags h1
+            exact ⟨a1.trans b1, a2.trans b2, a3.trans b3⟩
+
 end Barril.Valid
